@@ -7,6 +7,7 @@ import (
 	"regexp"
 	"sort"
 	"strings"
+	"sync"
 	"unsafe"
 
 	"github.com/llir/llvm/asm"
@@ -16,6 +17,7 @@ import (
 	"github.com/llir/llvm/ir/value"
 
 	"verif/fw"
+	"verif/gen"
 )
 
 //go:embed data/c15.ll
@@ -458,6 +460,7 @@ func runC15(c *fw.Check) {
 		}
 	}
 	c.Extra["values_substituted"] = nsub
+	c15generated(c)
 	c15constructed(c)
 	var kinds []string
 	for k := range seenKinds {
@@ -466,6 +469,53 @@ func runC15(c *fw.Check) {
 	sort.Strings(kinds)
 	c.Sample(map[string]interface{}{"kinds_instantiated": kinds})
 	c.Sample(map[string]interface{}{"user": "%r10 = call i32 @f1(i32 %a) [ \"tag\"(i32 %b, float %x), \"other\"(i1 %c) ]", "oracles": []string{"Operands()==reflective slots", "write REPLi through slot i changes exactly one token", "substitute-all leaves no use"}})
+}
+
+// c15generated runs the slot / write-through / successor oracles on EVERY user of EVERY generated
+// catalogue variant (widened type universe), not only on the fixed catalogue module.
+func c15generated(c *fw.Check) {
+	gen.SetWide()
+	bound := 1
+	if !c.Quick() {
+		bound = 2
+	}
+	all, batches := genBatches(gen.Catalogue(), bound, 40)
+	var mu sync.Mutex
+	users, slots := 0, 0
+	fw.ParallelFor(len(batches), func(i int) {
+		var try func(vs []gen.Variant)
+		try = func(vs []gen.Variant) {
+			if len(vs) == 0 {
+				return
+			}
+			m, errs, pan := parseTry(gen.Module(vs))
+			if errs != "" || pan != "" {
+				if len(vs) > 1 {
+					h := len(vs) / 2
+					try(vs[:h])
+					try(vs[h:])
+				}
+				return
+			}
+			us := c15users(m)
+			n := 0
+			for _, u := range us {
+				c15checkSlots(c, u, "/generated")
+				n += c15checkWrites(c, u)
+				c15checkSuccs(c, u, "/generated")
+			}
+			mu.Lock()
+			users += len(us)
+			slots += n
+			mu.Unlock()
+		}
+		try(batches[i])
+	})
+	c.Extra["generated_variants"] = len(all)
+	c.Extra["generated_users"] = users
+	c.Extra["generated_slots_written"] = slots
+	c.DistinctN(int64(users))
+	c.Valid(int64(users))
 }
 
 // c15constructed builds list-carrying users through the constructors from caller slices with spare
